@@ -1,7 +1,7 @@
 SPECIFICATION Spec
 CONSTANTS
   Workers = {1, 2, 3}
-  Configs <- ThreeN3Done
+  Configs <- ThreeWarm
   MirrorGoc = FALSE
   MirrorSetup = FALSE
   MirrorDone = FALSE
